@@ -512,7 +512,13 @@ run_case (int case_timeout)
       char *l = xstrdup (clines[li]);
       char *w = strtok_r (l, " \n", &save);
       if (w == NULL) { free (l); continue; }
-      if (!strcmp (w, "gram"))
+      if (!strcmp (w, "watchdog"))
+	{
+	  /* a case may set its own time limit (seconds) */
+	  char *t = strtok_r (NULL, " \n", &save);
+	  if (t != NULL && atoi (t) > 0) alarm (atoi (t));
+	}
+      else if (!strcmp (w, "gram"))
 	{
 	  int gid = atoi (strtok_r (NULL, " \n", &save));
 	  g = &grams[gid];
